@@ -50,7 +50,11 @@ time_t t2_now; unsigned t2_time_calls;
 /* arbitrary non-decreasing clock (at most 2^20 s per step) */
 time_t time(time_t *t) {
 	long long d = nondet_ll();
+#ifdef T2_CLOCK_STEADY
+	__CPROVER_assume(d == 0);                     /* bound of the job: the clock does not tick DURING the call (any value at entry) */
+#else
 	__CPROVER_assume(d >= 0 && d <= 0x100000LL);
+#endif
 	t2_now += d; t2_time_calls++;
 	if (t) *t = t2_now;
 	return t2_now;
